@@ -199,7 +199,9 @@ CLAIMED.update({
                  'position Pos); every mark on the atoms on both of its sides (specEz); for every bracket atom what the '
                  'fragment dialect makes of its annotation text (specAttrs/annoOf) — by simulation of the loop, one iteration '
                  'per token (stripAux_tokens, fold_fields; step lemmas atom2_step, node_step, anode_step, slash_step, ring_step); '
-                 'test-suite strings by kernel evaluation. Leading descriptors (written before the first atom) and malformed '
+                 'test-suite strings by kernel evaluation. C13_leading: any number of descriptors written BEFORE the first atom '
+                 '([kind label] followed by the order symbol) are reported on the first atom, in order, in front of its own '
+                 'descriptors (lead_step, stripAux_leads). Malformed '
                  'texts: validated by exact correspondence on generated and mutated fragment texts + the builder\'s expected '
                  '4-tuple (partial).'),
         'note': READ_NOTE,
@@ -251,7 +253,10 @@ CLAIMED.update({
                  'growth loop returns has distinct keys, only bonds between its own atoms and is connected (loop invariant '
                  'RunInv by induction over the loop), and in every reachable state a step leaves the old bonds untouched and '
                  'attaches the new copy by exactly one bond from an old atom to an atom of the copy, all other new bonds '
-                 'inside the copy (C16_step) — a tree of fragment copies; the library hypothesis is a Boolean the model '
+                 'inside the copy (C16_step) — a tree of fragment copies; and every copy persists (C16_every_copy, C16_start_copy: whatever '
+                 'step of whatever run, in every later molecule of the run the atoms of the chosen template stand, attribute for '
+                 'attribute, directly behind the atoms the molecule had before the step, the copy\'s bonds and the one attaching bond '
+                 'directly behind the bonds it had — later steps only append and consume open descriptors, run_extends); the library hypothesis is a Boolean the model '
                  'evaluates on every library the real reader produced (cfgWFb_sound). Tied to the code by replaying the recorded random decisions of every real run into '
                  'the model (exact molecule dump) + structural oracle.'),
         'note': RESOLVE_NOTE + 'random.choice(s) are parameters (contract G0 checked per call).',
